@@ -313,4 +313,178 @@ theorem readFrameM_list_size (cfg : MetaCfg) (mf mf' : MFramer) (inp rest : Byte
         simp [EmitInv, sumSize, this]
       | _ => simp at h
 
+/-! ### validity and order of the returned fields -/
+
+/-- on the REVERSED list (newest first): a pseudo header field is preceded only by pseudo fields -/
+def Ordered : List Field → Prop
+  | [] => True
+  | f :: t => (isPseudo f.name = true → ∀ g ∈ t, isPseudo g.name = true) ∧ Ordered t
+
+def FieldOK (f : Field) : Prop := validValue f.value = true ∧ (isPseudo f.name = true ∨ validName f.name = true)
+
+def EmitOK (e : Emit) : Prop :=
+  e.invalid = false →
+    (∀ f ∈ e.fields, FieldOK f) ∧ (e.sawRegular = false → ∀ f ∈ e.fields, isPseudo f.name = true) ∧ Ordered e.fields
+
+theorem emit_ok (cfg : MetaCfg) (e e' : Emit) (f : Field) (hi : EmitOK e) (h : emit cfg e f = .ok e') : EmitOK e' := by
+  unfold emit at h
+  simp only [] at h
+  split at h
+  · cases h
+  · by_cases hps : isPseudo f.name = true
+    · simp only [hps, if_true] at h
+      split at h
+      · injection h with h; subst h; intro hc; cases hc
+      · rename_i hinv
+        split at h
+        · cases h
+        · injection h with h; subst h
+          simp only [Bool.or_eq_true, not_or, Bool.not_eq_true, Bool.not_eq_eq_eq_not, Bool.not_false,
+            Bool.not_eq_true'] at hinv
+          obtain ⟨⟨hi0, hv⟩, hsaw⟩ := hinv
+          intro _
+          obtain ⟨a, b, c⟩ := hi hi0
+          have hv' : validValue f.value = true := by
+            cases hvv : validValue f.value with
+            | true => rfl
+            | false => exact absurd (by rw [hvv]; rfl) hv
+          refine ⟨?_, ?_, ?_⟩
+          · intro g hg
+            rcases List.mem_cons.mp hg with rfl | hg
+            · exact ⟨hv', Or.inl hps⟩
+            · exact a g hg
+          · intro _ g hg
+            rcases List.mem_cons.mp hg with rfl | hg
+            · exact hps
+            · exact b hsaw g hg
+          · exact ⟨fun _ => b hsaw, c⟩
+    · have hps' : isPseudo f.name = false := by simpa using hps
+      simp only [hps', Bool.false_eq_true, if_false] at h
+      split at h
+      · injection h with h; subst h; intro hc; cases hc
+      · rename_i hinv
+        split at h
+        · cases h
+        · injection h with h; subst h
+          simp only [Bool.or_eq_true, not_or, Bool.not_eq_true, Bool.not_eq_eq_eq_not, Bool.not_false,
+            Bool.not_eq_true'] at hinv
+          obtain ⟨⟨hi0, hv⟩, hn⟩ := hinv
+          intro _
+          obtain ⟨a, b, c⟩ := hi hi0
+          have hv' : validValue f.value = true := by
+            cases hvv : validValue f.value with
+            | true => rfl
+            | false => exact absurd (by rw [hvv]; rfl) hv
+          have hn' : validName f.name = true := by
+            cases hnn : validName f.name with
+            | true => rfl
+            | false => exact absurd (by rw [hnn]; rfl) hn
+          refine ⟨?_, ?_, ?_⟩
+          · intro g hg
+            rcases List.mem_cons.mp hg with rfl | hg
+            · exact ⟨hv', Or.inr hn'⟩
+            · exact a g hg
+          · intro hc; cases hc
+          · exact ⟨fun hc => (by rw [hps'] at hc; cases hc), c⟩
+
+theorem decodeLoop_ok (cfg : MetaCfg) : ∀ (fuel : Nat) (buf : Bytes) (e : Emit) (save : Bytes) (e' : Emit),
+    EmitOK e → decodeLoop cfg fuel buf e = .ok (save, e') → EmitOK e' := by
+  intro fuel
+  induction fuel with
+  | zero => intro buf e save e' _ h; simp [decodeLoop] at h
+  | succ fuel ih =>
+    intro buf e save e' hi h
+    unfold decodeLoop at h
+    split at h
+    · injection h with h; injection h with _ h2; subst h2; exact hi
+    · split at h
+      · split at h
+        · cases h
+        · injection h with h; injection h with _ h2; subst h2; exact hi
+      · cases h
+      · cases h
+      · exact ih _ _ _ _ hi h
+      · split at h
+        · cases h
+        · split at h
+          · split at h
+            · cases h
+            · rename_i e1 hem
+              exact ih _ _ _ _ (emit_ok cfg e e1 _ hi hem) h
+          · exact ih _ _ _ _ hi h
+
+theorem hdecWrite_ok (cfg : MetaCfg) (save : Bytes) (e : Emit) (frag save' : Bytes) (e' : Emit)
+    (hi : EmitOK e) (h : hdecWrite cfg save e frag = .ok (save', e')) : EmitOK e' := by
+  unfold hdecWrite at h
+  split at h
+  · injection h with h; injection h with _ h2; subst h2; exact hi
+  · exact decodeLoop_ok cfg _ _ _ _ _ hi h
+
+theorem metaLoop_fields (cfg : MetaCfg) (fh0 : FH) (pr : Prio) :
+    ∀ (fuel : Nat) (mf : MFramer) (e : Emit) (frag : Bytes) (ended : Bool) (inp : Bytes)
+      (fh : FH) (pr' : Prio) (fs : List Field) (t : Bool) (mf' : MFramer) (rest : Bytes),
+      EmitOK e → metaLoop cfg fh0 pr fuel mf e frag ended inp = (.mh fh pr' fs t, mf', rest) →
+      (∀ f ∈ fs, FieldOK f) ∧ Ordered fs.reverse ∧ pseudoOK fs = true := by
+  intro fuel
+  induction fuel with
+  | zero => intro mf e frag ended inp fh pr' fs t mf' rest _ h; simp [metaLoop] at h
+  | succ fuel ih =>
+    intro mf e frag ended inp fh pr' fs t mf' rest hi h
+    unfold metaLoop at h
+    cases hw : hdecWrite cfg mf.save e frag with
+    | error x => rw [hw] at h; simp at h
+    | ok y =>
+      obtain ⟨save, e'⟩ := y
+      have hi' := hdecWrite_ok cfg _ _ _ _ _ hi hw
+      rw [hw] at h
+      simp only at h
+      cases ended with
+      | true =>
+        simp only [if_true] at h
+        split at h
+        · simp at h
+        · split at h
+          · simp at h
+          · rename_i hinv
+            split at h
+            · simp at h
+            · rename_i hps
+              simp only [Prod.mk.injEq, MRes.mh.injEq] at h
+              obtain ⟨⟨_, _, hf, _⟩, _⟩ := h
+              subst hf
+              have hinv' : e'.invalid = false := by simpa using hinv
+              obtain ⟨a, _, c⟩ := hi' hinv'
+              refine ⟨fun f hf => a f (List.mem_reverse.mp hf), (by rw [List.reverse_reverse]; exact c), (by simpa using hps)⟩
+      | false =>
+        simp only [Bool.false_eq_true, if_false] at h
+        cases hrf : readFrame mf.fr inp with
+        | mk res x =>
+          obtain ⟨fr', rest'⟩ := x
+          rw [hrf] at h
+          cases res with
+          | error er => simp at h
+          | ok f =>
+            cases f with
+            | continuation fh2 frag2 => simp only at h; exact ih _ _ _ _ _ _ _ _ _ _ _ hi' h
+            | _ => simp at h
+
+theorem readFrameM_fields (cfg : MetaCfg) (mf mf' : MFramer) (inp rest : Bytes) (fh : FH) (pr : Prio)
+    (fs : List Field) (t : Bool) (h : readFrameM cfg mf inp = (.mh fh pr fs t, mf', rest)) :
+    (∀ f ∈ fs, FieldOK f) ∧ Ordered fs.reverse ∧ pseudoOK fs = true := by
+  unfold readFrameM at h
+  cases hrf : readFrame mf.fr inp with
+  | mk res x =>
+    obtain ⟨fr', rest'⟩ := x
+    rw [hrf] at h
+    cases res with
+    | error e => simp at h
+    | ok f =>
+      cases f with
+      | headers fh1 pr1 frag =>
+        simp only at h
+        refine metaLoop_fields cfg fh1 pr1 _ _ _ _ _ _ _ _ _ _ _ _ ?_ h
+        intro _
+        exact ⟨fun f hf => (by cases hf), fun _ f hf => (by cases hf), trivial⟩
+      | _ => simp at h
+
 end BfeVerif.C32
